@@ -209,7 +209,17 @@ where
         C: Collect + for<'a> LookupSpan<'a>,
     {
         let mut timestamp = String::new();
-        self.timer.format_time(&mut Writer::new(&mut timestamp))?;
+        // If getting the timestamp failed, don't bail --- only bail on
+        // formatting errors (as the other formatters do): the clock being
+        // unavailable must not cost the whole record.
+        if self
+            .timer
+            .format_time(&mut Writer::new(&mut timestamp))
+            .is_err()
+        {
+            timestamp.clear();
+            timestamp.push_str("<unknown time>");
+        }
 
         #[cfg(feature = "tracing-log")]
         let normalized_meta = event.normalized_metadata();
